@@ -290,7 +290,8 @@ impl StringDecoder for Unreal2StringDecoder {
         // Remove all characters between 0x00 and 0x1a
         let result = result.replace(|c: char| c > '\x00' && c <= '\x1a', "");
 
-        *cursor += start + length;
+        // Never move past the end of the data (an unterminated latin1 string has no delimiter to skip)
+        *cursor += (start + length).min(data.len());
 
         // Strip delimiter that wasn't included in length
         Ok(result.trim_matches('\0').to_string())
